@@ -234,7 +234,12 @@ def run_queue(ctx, replay, pid, mine, dims, opts):
         for k, b in enumerate(pick):
             nb = json.loads(json.dumps(b))
             nb["id"] = 1000000 + k + 1
-            nb["cfg"]["utf8"] = bool(nb["cfg"].get("utf8", False))
+            nb["cfg"]["utf8"] = bool(nb["cfg"].get("utf8", False)) or (k % 4 == 3)
+            nb["cfg"]["idn"] = k % 2 == 1      # internationalized recipients (U-label domain) on every second run
+            # the real remote-MX target (a PartialDelivery over SMTP) for per-recipient plans whose MAIL always succeeds
+            if nb["cfg"]["partial"] and all(h.get("res", "ok") == "ok" for h in nb["hist"] if h["a"] == "TStart") \
+                    and k % 3 != 2:
+                nb["cfg"]["fwd"] = "remote"
             rb.append(nb)
             by_id[nb["id"]] = nb
             real_ids.add(nb["id"])
